@@ -1,6 +1,7 @@
-"""C11 — evolution strategies: theorems (Props/C11.lean) + correspondence K-C11 between Model/CMA.lean
-(driver drv_c11) and the real CMA-ES, plus an independent oracle on CMA, CMSA, ElitistCMA, VD-CMA,
-CrossEntropyMethod and SimplexDownhill."""
+"""C11 — evolution strategies: theorems (Props/C11.lean) about strategy-parameter formulas regenerated from the C++
+(translate/cma_params.py -> Gen/CMAParams.lean) and about the models Model/CMA.lean, Model/ES.lean; correspondence K-C11 between
+the models (driver drv_c11) and the real CMA, ElitistCMA, CMSA, CrossEntropyMethod, SimplexDownhill; independent per-step oracle
+on CMA, CMSA, ElitistCMA, VD-CMA, CrossEntropyMethod and SimplexDownhill (7 runs per case incl. a re-initialised used object)."""
 import os, re, struct, subprocess, time
 from concurrent.futures import ThreadPoolExecutor
 from vlib import core
@@ -10,30 +11,39 @@ REPO_SOURCES = ["src/Algorithms/DirectSearch/CMA.cpp", "src/Algorithms/DirectSea
                 "src/Core/Random.cpp"]
 LAKE_TARGETS = ["SharkVerif.Props.C11", "drv_c11"]
 
-TRUST = ("Lean 4.33 kernel; axioms at most propext/Classical.choice/Quot.sound (audited per run); hand-written model "
-         "tied to the C++ by the correspondence harness (differential, generator-bounded); ")
+TRUST = ("Lean 4.33 kernel; axioms at most propext/Classical.choice/Quot.sound (audited per run); strategy-parameter formulas regenerated from the C++ "
+         "by translate/cma_params.py (T0), update rules hand-modelled and tied to the C++ by the correspondence harness (differential, generator-bounded); ")
 MANIFEST = dict(
-  text=("Theorems (Props/C11.lean) about an executable model of CMA-ES (CMA.cpp: doInit coefficient formulas, selection by sorting, "
-        "updatePopulation with hSig, rank-one + rank-mu covariance update, cumulative step-size adaptation and lower-bound clamp) for all dimensions, "
-        "population sizes, weights, variate streams, objectives and numbers of generations: rank_invariance (for every order-preserving phi the run on phi∘f with the same "
-        "variate stream has the same search distribution and reports the same points; key lemma select_relabel on the stable merge sort), "
-        "sigma_pos (step size positive in every generation, exp as a positive function parameter, incl. the clamp), coeffs_admissible (0<c1<1, 0<cmu<=1-c1, 0<csigma<1, 0<cc<=1 for all n>=1, mueff>=1) "
-        "and weights_normalised (positive, sum 1), cov_update_psd / cov_update_pd (a*C + c1*pp' + cmu*sum w_i y_i y_i' is symmetric PSD / PD; Mathlib Matrix.PosSemidef over the reals), "
-        "reported_value_is_f (reported value = fitness at the reported point after every generation), deterministic, elitist_monotone (+ value = f(point)) for the (1+1) acceptance rule. "
-        "Tie: CMA::doInit coefficients compared bit for bit with the Float instance of the model (same libm); CMA::updatePopulation re-computed generation by generation by the model from the real run's own "
-        "state, evaluated offspring and eigenvectors (one-step refinement, bit-identical or 1e-9). Independent oracle on the real CMA, CMSA, ElitistCMA, VDCMA, CrossEntropyMethod, SimplexDownhill after every step: "
-        "sigma>0 finite, covariance symmetric + Cholesky succeeds, value = f(closest feasible point) bit-exact, same seed => identical run, runs on f, 2f, f/8 and a piecewise-linear exact rescaling visit identical points, "
-        "elitist variants monotone, sphere convergence."),
-  note=TRUST + "not modelled (parameters of the model / oracle only): the random variates and the eigendecomposition of MultiVariateNormalDistribution::update (the model takes the sampled offspring and the eigenvectors as inputs); "
-       "cov_update_psd is stated on Mathlib matrices, the list-based covUpdate of the executable model is the same formula but the two are not formally connected; "
-       "the noise-handling branch of CMA::step (function.isNoisy()) is not modelled; CMSA, ElitistCMA's covariance update, VD-CMA, CEM and simplex downhill have no Lean model — they are covered by the harness oracle only; "
-       "convergence on the sphere is numerical (value <= 1e-10 within the budget). Known findings on the unchanged tree (known_findings.json, findings_proposed/C11.md): F12 VD-CMA turns NaN after stagnating, "
-       "F13 the CMA covariance matrix drifts away from symmetry (relative asymmetry > 1e-9 after ~100 generations; oracle tolerance 1e-9*sqrt(CiiCjj)+1e-16). Observation (not a violation of C11 as stated): CMA/CMSA rank offspring by unpenalizedFitness (Individual::FitnessOrdering), so the PenalizingEvaluator penalty never influences selection.",
-  technique="Lean 4 proofs (induction over generations, stable-sort congruence, Mathlib PosSemidef) + differential correspondence and property oracle on the C++ (ASan/UBSan)",
-  design="§6 C11")
+  text=("Theorems (Props/C11.lean) about executable models of the direct-search methods C11 names, for all dimensions, population sizes, recombination types, "
+        "variate streams, objectives and numbers of steps. "
+        "(1) Strategy parameters: the formulas of CMA::doInit, CMSA::doInit, VDCMA::init, the CMAChromosome constructor (ElitistCMA) and LMCMA::init are REGENERATED from the C++ on every run "
+        "(Gen/CMAParams.lean) and proved admissible: doInit_admissible (end to end, for every n>=1, mu>=1, each recombination type, log strictly increasing: mu weights, positive, non-increasing in the rank, "
+        "sum 1, mu_eff>=1, 0<c1<1, 0<cmu<=1-c1, 0<csigma<1, 0<cc<=1, dsigma>=1+csigma), cmsa_consts_admissible (cC>1, shrink factor 1-1/cC>0, the covariance update is a convex combination), "
+        "ecma_consts_admissible (all six rates in range), vdcma_rates_of_correction + vdcma_correction_ok (admissible for n>=6; for n<=5 the HEAD formula is not positive: finding F14, vdcma_head_formula_not_positive). "
+        "(2) CMA-ES (Model/CMA.lean): rank_invariance (every order-preserving phi, same variate stream => same search distribution and reported points; key lemma on the stable merge sort), sigma_pos incl. the lower-bound clamp, "
+        "cov_update_psd / cov_update_pd (Mathlib PosSemidef/PosDef over the reals), reported_value_is_f, deterministic. "
+        "(3) Every comparison-based strategy (Model/ES.lean Strategy: sample, evaluate, stable-sort selection, update from the selected; instance: cross-entropy method): generic_rank_invariance, generic_value_is_f. "
+        "(4) ElitistCMA::step with CMAChromosome::updateAsOffspring/updateAsParent: ecma_sigma_pos, ecma_pSucc_unit, ecma_elitist_monotone (real three-way success rule with the history of accepted values: the reported value never increases "
+        "and the point changes only with it), active_update_admissible (the shortened unlearning rate keeps (1+r)-r|z|^2>0 for every z), ecma_factor_valid. "
+        "(5) remora's Cholesky rank-one update (CMSA, ElitistCMA): cholUpdate_diag_pos / cholUpdate_valid (whenever the update returns, the factor has a positive diagonal again, for every alpha>0, any beta, any v), cmsa_factor_valid, cmsa_sigma_pos. "
+        "(6) cem_variance_nonneg; SimplexDownhill: simplex_best_monotone(_run), simplex_value_is_f. "
+        "Tie, on every run: all strategy constants of CMA/CMSA/VD-CMA/ElitistCMA/LM-CMA objects initialised through their public interface are compared bit for bit with the Float instance of the regenerated formulas; "
+        "CMA::updatePopulation, ElitistCMA::step, CMSA::updatePopulation and CrossEntropyMethod's update are re-computed step by step by the models from the real run's own state and samples (one-step refinement; ECMA/CMSA/CEM bit-identical, CMA bit-identical or 1e-9 behind BLAS/eigensolver); "
+        "whole SimplexDownhill runs are re-computed from the starting point (objective evaluated in Lean) and compared bit for bit. "
+        "Independent oracle on the real CMA (all recombination types, user-set lambda from 2 to 200 incl. lambda >> n), CMSA, ElitistCMA, VD-CMA, CrossEntropyMethod (user-set population / selection / variance), SimplexDownhill, n from 1 to 60, after init and after every step: "
+        "sigma>0 finite; covariance symmetric + own Cholesky (CMA) / valid Cholesky factor (CMSA, ElitistCMA) / D finite non-zero, v finite, |v|>0 (VD-CMA) / variance finite >=0 (CEM); mean and paths finite; weights positive, non-increasing, sum 1; learning rates in range; "
+        "value = f(closest feasible point) bit-exact; 7 runs per case with the same seed: fresh, fresh, RE-INITIALISED used object, and f rescaled by 2, 1/8 and a piecewise-linear exact map (identical points and step sizes); elitist variants monotone; best <= every simplex vertex; sphere convergence for all six methods."),
+  note=TRUST + "not modelled (inputs of the models): the random variates and the eigendecomposition of MultiVariateNormalDistribution::update; VD-CMA's updateStrategyParameters has no Lean model (constants regenerated and compared, update covered by the oracle only; "
+       "generic_rank_invariance applies to any update function but VD-CMA's is not tied); cov_update_psd is stated on Mathlib matrices, the list-based covUpdate of the executable model is the same formula but the two are not formally connected; "
+       "cholUpdate_diag_pos proves validity of the returned factor, not that L'L'^T equals alpha*LL^T+beta*vv^T; simplex rank invariance and CEM/simplex convergence are oracle-only; the noise-handling branch of CMA::step (function.isNoisy()) is outside the property (deterministic objective); "
+       "ElitistSelection uses std::sort (unstable beyond 16 elements): generations with tied fitness among more than 16 offspring are counted, not compared; convergence on the sphere is numerical (value <= 1e-10, CEM 1e-6, within the budget). "
+       "Known findings on the unchanged tree (known_findings.json, findings_proposed/C11.md): F14 VD-CMA learning rates negative for n<5 and zero for n=5 (patch C11-F14-vdcma-correction-floor.patch, validated) and its consequence F12 (VD-CMA turns NaN after stagnating), "
+       "F13 the CMA covariance matrix drifts away from symmetry (oracle tolerance 1e-9*sqrt(CiiCjj)+1e-16). Observations (not violations of C11 as stated): CMA/CMSA rank offspring by unpenalizedFitness, so the PenalizingEvaluator penalty never influences selection; LMCMA.h does not compile and LMCMA::step always throws; CMAChromosome::roundUpdate deviates from the paper by a factor c_cov.",
+  technique="Lean 4 proofs (induction over generations and over the columns of the Cholesky factor, stable-sort congruence, Mathlib PosSemidef) about regenerated formulas and hand-written models + differential correspondence and property oracle on the C++ (ASan/UBSan)",
+  design="§6 C11, §14")
 FINISH = dict(level="proof",
-              rule="coefficient cases: (n, lambda, mu, recombination) incl. the defaults; run cases: objective (sphere | integer strictly convex quadratic | Rosenbrock, optional box) x optimizer x seed x steps, "
-                   "each executed 5 times inside the harness (2x same seed, 3 rescalings); trace cases: CMA generations re-computed by the model; non-trivial = at least 5 steps")
+              rule="coefficient cases: (class, n, lambda, mu, recombination) incl. the defaults; run cases: objective (sphere | integer strictly convex quadratic | Rosenbrock | plateau | constant, optional soft box) x optimizer x population class x initial step size x x0 class x seed x steps, "
+                   "each executed 7 times inside the harness (2x fresh, re-initialised used object, 3 rescalings); trace cases: CMA / ElitistCMA / CMSA / CEM steps re-computed by the models, whole simplex runs; non-trivial = at least 5 steps")
 
 
 def fb(x):
@@ -382,9 +392,11 @@ def build(ctx):
 
 def run(ctx):
     ctx.trusted += ["correspondence harness harness/c11.cpp + generator checks/c11.py",
-                    "hand-written model Model/CMA.lean; eigendecomposition and random variates are inputs of the model",
+                    "translator translate/cma_params.py (C++ arithmetic with the usual promotions -> Lean; result compared bit for bit at Float on every run)",
+                    "hand-written models Model/CMA.lean, Model/ES.lean; eigendecomposition and random variates are inputs of the models",
                     "ASan/UBSan runtime for the real code's memory safety (not a theorem)"]
     ctx.assumptions += ["exp is a positive function, sqrt|last eigenvalue| > 0 (sigma_pos)", "phi is order preserving (rank_invariance)",
+                        "log strictly increasing on the positive rationals (weights), sqrt positive on positives (Cholesky update, CMSA c_sigma), pow non-negative (ElitistCMA unlearning rate)",
                         "covariance theorem over the reals (Mathlib), not over floating point"]
     translate(ctx)
     ctx.prove(["SharkVerif.Props.C11"])
